@@ -86,18 +86,18 @@ func main() {
 			b, _ := json.Marshal(sc)
 			res.Samples = append(res.Samples, b)
 		}
-		if i%97 == 0 && !(o.V != nil && (o.V.Oracle == "race" || strings.HasPrefix(o.V.Oracle, "sched."))) {
-			// in-process determinism re-check (not after a race report: the detector reports a race once per process;
-			// not after a scheduler error: parked tasks remain)
+		if i%97 == 0 && o.V == nil {
+			// in-process determinism re-check of a run that found nothing
 			o2 := e.Exec(sc)
 			res.Recheck++
-			if o2.Digest != o.Digest || (o2.V == nil) != (o.V == nil) {
-				if o2.V != nil && o2.V.Oracle == "race" {
-					// the re-execution tripped a race the first one did not report: a violation, not a harness defect
-					o = o2
-				} else {
-					res.RecheckDiff++
-				}
+			if o2.V != nil {
+				// the re-execution found a violation the first one did not: the code under test is not a
+				// function of the script here (e.g. it lets the iteration order of a Go map decide the order of
+				// its writes). That is reported as the violation it is, not as a harness defect.
+				res.Stats.Inc("recheck.violation-only-on-reexecution")
+				o = o2
+			} else if o2.Digest != o.Digest {
+				res.RecheckDiff++
 			}
 		}
 		if o.V != nil {
